@@ -1,6 +1,7 @@
 #!/bin/bash
 # tools/seeds_rerun.sh : apply every confirmed seeded change in turn, run its property's quick check, undo; writes seeded/RESULTS.txt
 cd /verif; : > seeded/RESULTS.txt
+rm -rf work/evidence_keep2 && cp -r evidence work/evidence_keep2
 for d in seeded/C*/; do
   id=$(basename $d)
   (cd /repo && git apply /verif/$d/patch.diff) || { echo "$id patch-does-not-apply" >> seeded/RESULTS.txt; continue; }
@@ -9,4 +10,5 @@ for d in seeded/C*/; do
   echo "$id exit=$rc $line" >> seeded/RESULTS.txt
   git -C /repo checkout -- .
 done
+rm -rf evidence && mv work/evidence_keep2 evidence
 cat seeded/RESULTS.txt
